@@ -169,10 +169,7 @@ def main():
         big = [I64_MIN, -P53 - 1, -128, -1, 0, 1, 2, 128, P53 + 1, I64_MAX]
     int_types = []
     for a, b in itertools.combinations_with_replacement(big, 2):
-        # Intervals<i64>::values_len hang (see C18): both ends on the same side of +-128 and a wide range would make
-        # the real into_values() enumerate the range; such source types are excluded here and handled in C18.
-        if (a > 128 or b < -128) and b - a > 100000:
-            continue
+        # (wide ranges beyond the capacity used to hang in into_values - fixed, see known_findings.txt / C18 - and are part of the grid)
         int_types.append(driver.t_int((a, b)))
     int_types += [driver.t_int((0, 1), (5, 9)), driver.t_int((-3, -3), (4, 4), (P53 + 1, P53 + 1)), driver.t_int((I64_MIN, -1), (1, I64_MAX)),
                   driver.t_int((0, 0), (1, 1)), driver.t_int((-1, 0)), driver.t_int((1, 2))]
@@ -224,6 +221,37 @@ def main():
             dict(kind="refused", pair=(A, Bn), src=a, image=I, via=via))
         ck.sample(dict(part="B", source=ans.get("image", {}).get("s") and json.dumps(a), target=Bn, image=img.get("s")))
     ck.note("grid: %d (source type, target variant) points; real conversion accepted %d, refused %d, hang %d" % (len(grid), n_ok, n_err, n_hang))
+    # concrete end-to-end validation of the public value path: the end points of every accepted source type are converted by the real
+    # injection; each must be accepted and lie in the converted type (this also validates the encoder against the public entry point)
+    ep_jobs, ep_meta = [], []
+    for (A, Bn, a, via), ans in zip(grid, answers):
+        if "ok" not in ans.get("image", {}):
+            continue
+        ta = TY[A]
+        pts = []
+        for lo, hi in a["iv"]:
+            for x in (lo, hi):
+                pv = int(x) if ta == "i64" else (kern.bits_to_float(x) if ta == "f64" else x)
+                if pv not in pts:
+                    pts.append(pv)
+        pts = pts[:4]
+        ep_jobs.append(dict(op=opof(A, Bn, via), **{"from": a, "to": full[Bn]}, values=[kern.value_json(ta, p) for p in pts]))
+        ep_meta.append((A, Bn, a, via, pts, ans["image"]))
+    ep_ans = driver.parallel_batch(ep_jobs, workers=12, timeout=20.0)
+    n_ep = 0
+    dd = driver.Driver(15.0)
+    for (A, Bn, a, via, pts, img), ans in zip(ep_meta, ep_ans):
+        for p, rv in zip(pts, ans.get("values") or []):
+            n_ep += 1
+            if "ok" not in rv:
+                ck.violation("injection=%s->%s/value-refused-in-accepted-type/%s" % (A, Bn, via), "type %s converts to %s (%s entry point) but its value %r is refused: %s" % (
+                    json.dumps(a), img.get("s"), via, p, (rv.get("err") or rv.get("panic") or "").strip()), dict(source=a, value=repr(p), answer=rv))
+            else:
+                c = dd.call(dict(op="contains", dt=img["ok"], values=[rv["ok"]]))
+                if c.get("ok") == [False]:
+                    ck.violation("injection=%s->%s/value-outside-converted-type/%s" % (A, Bn, via), "type %s converts to %s but its value %r converts to %s" % (json.dumps(a), img.get("s"), p, rv.get("s")), dict(source=a, value=repr(p)))
+    dd.close()
+    ck.note("public value path: %d end points of accepted source types converted by the real injection and checked against the converted type" % n_ep)
 
     # ------------------------------------------------------------------ translator validation (concrete, both sides)
     tv_jobs, tv_q = [], []
@@ -237,7 +265,7 @@ def main():
             decls, d, val = ref_value(A, B, x)
             qid = "TV/%s->%s/%r" % (A, B, pv)
             tv_q.append(dict(id=qid, script="\n".join(decls + ["(declare-const d Bool)", "(declare-const r %s)" % SORT[TY[B]],
-                                                              "(assert (= d %s))" % d, "(assert (=> d (= r %s)))" % val.t]), values=["d", "r"]))
+                                                              "(assert (= d %s))" % d] + (["(assert (=> d (= r %s)))" % val.t] if val is not None else [])), values=["d", "r"]))
             src = {"Integer": lambda: driver.t_int((pv, pv)), "Float": lambda: driver.t_float((pv, pv)), "Boolean": lambda: driver.t_bool((pv, pv))}[A]()
             tv_jobs.append(dict(op="inject_direct" if (A, B) in DIRECT else "inject", **{"from": src, "to": full[B]}, values=[kern.value_json(ta, pv)], _q=qid, _pair=(A, B), _pv=pv))
     tv_ans = driver.parallel_batch([{k: v for k, v in j.items() if not k.startswith("_")} for j in tv_jobs], workers=8, timeout=15.0)
